@@ -208,7 +208,9 @@ def apply_lib(obj, op):
         elif f == "quat":
             obj.rotate_from_quat(_as_container(op, op["quat"]), anchor=a, start=st)
     elif k == "set_position":
-        obj.position = np.array(op["value"])
+        a = np.array(op["value"], dtype=float)
+        obj.position = a
+        a += 17.0     # the caller reuses its buffer: the stored path is the object's own
     elif k == "set_orientation":
         obj.orientation = None if op["quat"] is None else R.from_quat(np.array(op["quat"]))
     elif k == "reset":
